@@ -16,7 +16,7 @@ RULE = ("seeded circuits (several nodes per type, hierarchy 0-2) in which a rand
         "compared with the reference recurrence that delivers source[k - round(d/dt)] (zero before the start) scaled by the "
         "weight; M-delay records the branch taken; family matrix: Population/Connectivity circuits with delayed matrix edges;  non-trivial = at least one delayed edge whose source is not constant; "
         "distinct = distinct spec hash")
-DECIDING = ['rows_compared', 'delayed_edges', 'mixed_delay_sources', 'vectorized_runs', 'several_delays_per_source',
+DECIDING = ['rows_compared', 'delayed_edges', 'vectorized_runs', 'several_delays_per_source',     # ('mixed_delay_sources': counted, a few per quick run)
             'matrix_delayed_edges', 'matrix_delays_off_grid']
 ASSUMPTIONS = ['main sweep: delays round to at least two steps; delays that round to ONE step are a probe family of the recorded finding F-C09-one-step-delay',
                'zero pre-history of the ring buffer', 'Euler solver (one RHS call per step)']
